@@ -269,6 +269,7 @@ class Session:
         self.parse_steps = 0
         self.recent: Dict[str, str] = {}
         self.giveup_seen = False
+        self.history: List[Dict] = []  # clean, unfaulted steps: (plan step, pre-call canonical arguments, outcome)
 
     # ---- helpers
     def count(self, k: str, n: int = 1) -> None:
@@ -547,6 +548,25 @@ class Session:
                 self.count("pristine_timeouts")
             elif st == "died":
                 self.count("pristine_died")
+
+        # ---- O3d: the same call repeated LATER in the session (operands canonically unchanged in between)
+        clean = not self.giveup_seen and script is None and wfault is None and out1[0] != "crash"
+        if "O3" in O and clean and step.get("repeat_of") is not None:
+            # (in a shrunk plan the index may point elsewhere: look the earlier call up by operation and canonical arguments)
+            k = step["repeat_of"]
+            h = self.history[k] if k < len(self.history) and self.history[k]["step"]["op"] == name and self.history[k]["can"] == can else None
+            if h is None:
+                for cand in self.history:
+                    if cand["step"]["op"] == name and cand["can"] == can:
+                        h = cand
+                        break
+            if h is not None:
+                self.count("late_repeats")
+            if h is not None and _outcome_key(out1) != h["outcome"]:
+                self.violate(i, name, "O3d", {"what": "the same call on canonically equal arguments, repeated %d steps later in the session, gave a different outcome" % (i - h["step_index"]),
+                                              "earlier": _short(h["outcome"]), "now": _short(out1)}, "repeat-later")
+        if clean and name not in ("write_file", "read_file", "compound_file"):
+            self.history.append({"step_index": i, "step": step, "can": can, "outcome": _outcome_key(out1)})
 
         # ---- O5 bookkeeping
         if name == "parse" and not self.giveup_seen:
